@@ -164,15 +164,17 @@ def faulted_sessions(ctx):
     from laspy.vlrs.vlrlist import VLRList
     rng = ctx.rng
     out = []
-    for _ in range(ctx.n(60, 600)):
-        h = lasio.rand_header(rng)
+    modes = ["refused-caught", "refused-with", "shapes", "appender-evlrs"]
+    edits = ["append", "pop", "clear", "replace"]
+    for it in range(ctx.n(60, 600)):
+        mode = modes[it % 4]
+        h = lasio.rand_header(rng, version="1.4" if mode == "appender-evlrs" else None)
         if rng.random() < 0.3:
             lasio.add_extra_dims(rng, h)
         ps = h.point_format.size
         chunks = [lasio.rand_points(rng, h, rng.choice([1, 2, 5, 9])) for _ in range(rng.choice([1, 2, 3, 4]))]
         evl = VLRList([lasio.rand_vlr(rng) for _ in range(rng.choice([0, 1, 2]))]) if h.version.minor >= 4 else None
         desc = {"version": str(h.version), "format": h.point_format.id, "chunks": [len(c) for c in chunks], "evlrs": len(evl or [])}
-        mode = rng.choice(["refused-caught", "refused-with", "shapes", "appender-evlrs"])
         try:
             if mode in ("refused-caught", "refused-with"):
                 k = rng.randrange(1, len(chunks) + 1)
@@ -224,7 +226,7 @@ def faulted_sessions(ctx):
                     continue
                 base = lasio.write_las(h, chunks[0], VLRList([lasio.rand_vlr(rng) for _ in range(rng.choice([1, 2]))]))
                 bio = io.BytesIO(base)
-                edit = rng.choice(["append", "pop", "clear", "replace"])
+                edit = edits[(it // 4) % 4]
                 want = lasio.rec_bytes(chunks[0])
                 with laspy.open(bio, mode="a", closefd=False) as ap:
                     if edit == "append":
